@@ -366,7 +366,7 @@ func (w *World) checkUpdateNodes(how string, n *Node, e *blockEntry, f *ref.Fore
 			_, height := f.TreeOf(i)
 			for row := 0; row <= height; row++ {
 				if !seen[[2]uint64{uint64(row), i >> uint(row)}] {
-					w.violate("C05", "update-tree-node-missing", fmt.Sprintf("node %d, %s of block %s (height %d): ForEachTreeNode does not report node (row %d, column %d) on the path of touched leaf %d (tree of height %d)", n.idx, how, short(e.id), e.height, row, i>>uint(row), i, height))
+					w.violate(w.propAmong("C05", "C06"), "update-tree-node-missing", fmt.Sprintf("node %d, %s of block %s (height %d): ForEachTreeNode does not report node (row %d, column %d) on the path of touched leaf %d (tree of height %d)", n.idx, how, short(e.id), e.height, row, i>>uint(row), i, height))
 					return
 				}
 			}
@@ -388,7 +388,7 @@ func (w *World) checkUpdateNodes(how string, n *Node, e *blockEntry, f *ref.Fore
 		return
 	}
 	if bad != "" {
-		w.violate("C05", "update-tree-node", fmt.Sprintf("node %d, %s of block %s (height %d): ForEachTreeNode: %s", n.idx, how, short(e.id), e.height, bad))
+		w.violate(w.propAmong("C05", "C06"), "update-tree-node", fmt.Sprintf("node %d, %s of block %s (height %d): ForEachTreeNode: %s", n.idx, how, short(e.id), e.height, bad))
 		return
 	}
 	if count > 0 {
